@@ -18,7 +18,7 @@ import (
 // on their own.  The oracle applies the composition rule to the reference
 // density of the base family.
 
-var wrapBases = []string{"normal", "gamma", "exponential", "cauchy", "gengamma", "beta"}
+var wrapBases = []string{"normal", "gamma", "exponential", "cauchy", "gengamma", "beta", "gev"}
 
 // baseGen draws moderate parameters of a base family (the wrappers are about
 // the composition, the extremes of the base are covered by the pts monitor).
@@ -34,6 +34,8 @@ func baseGen(r *prng.Rand, name string) []float64 {
 		return []float64{r.LogUniform(0.3, 5), r.LogUniform(0.5, 8), r.LogUniform(0.5, 4)}
 	case "beta":
 		return []float64{r.LogUniform(0.5, 20), r.LogUniform(0.5, 20)}
+	case "gev":
+		return []float64{float64(r.Range(-8, 8)) / 4, r.LogUniform(0.3, 3), pick(r, 0, 0.25, -0.25, r.Uniform(-0.4, 0.4))}
 	}
 	panic("no base generator for " + name)
 }
@@ -110,7 +112,11 @@ func baseBreaks(f *family, p []float64, shift float64) (lo, hi float64, br []flo
 	return lo + shift, hi + shift, br, s
 }
 
-func wrapEval(cs *fw.Case, ev map[string]any, sigHead string, xs []float64, mk func(t ad.ScalarType) (st.ScalarPdf, error), quad func() []node) {
+// wrapEval evaluates a wrapper built by mk at xs (both parameter types), checks
+// its clone and, with mkOther (same structure, other parameters), the
+// parameter round trips: SetParameters(GetParameters()) is the identity and
+// other.SetParameters(d.GetParameters()) turns other into d.
+func wrapEval(cs *fw.Case, ev map[string]any, sigHead string, xs []float64, mk func(t ad.ScalarType) (st.ScalarPdf, error), quad func() []node, mkOther ...func(t ad.ScalarType) (st.ScalarPdf, error)) {
 	ev["x"] = hxs(xs)
 	for i, ty := range stypes {
 		var d st.ScalarPdf
@@ -136,6 +142,9 @@ func wrapEval(cs *fw.Case, ev map[string]any, sigHead string, xs []float64, mk f
 				}
 			}
 		}
+		if len(mkOther) > 0 {
+			setRoundTrip(cs, ev, sigHead, ty, d, vals, xs, mk, mkOther[0])
+		}
 		if quad != nil && i == cs.Index%2 {
 			if ns := quad(); ns != nil {
 				emitNodes(ev, d, ty.t, ns)
@@ -147,6 +156,65 @@ func wrapEval(cs *fw.Case, ev map[string]any, sigHead string, xs []float64, mk f
 	cs.C.Cover("lp-evaluations", int64(2*len(xs)))
 	cs.C.Data(ev)
 }
+
+func setRoundTrip(cs *fw.Case, ev map[string]any, sigHead string, ty scalarType, d st.ScalarPdf, vals []string, xs []float64,
+	mk, mkOther func(t ad.ScalarType) (st.ScalarPdf, error)) {
+	sig := sigHead + "|set|roundtrip"
+	var pv []float64
+	if pn := fw.Call(func() { pv = floats(d.GetParameters()) }); pn != nil {
+		cs.Violation(sig, "GetParameters panics: "+pn.Msg, ev)
+		return
+	}
+	check := func(what string, e st.ScalarPdf) {
+		var serr error
+		if pn := fw.Call(func() { serr = e.SetParameters(guard(d.GetParameters().CloneVector())) }); pn != nil {
+			cs.Violation(sig, fmt.Sprintf("%s: SetParameters panics: %s", what, pn.Msg), ev)
+			return
+		} else if serr != nil {
+			cs.Violation(sig, fmt.Sprintf("%s: SetParameters returns error: %v", what, serr), ev)
+			return
+		}
+		var pe []float64
+		if pn := fw.Call(func() { pe = floats(e.GetParameters()) }); pn != nil {
+			cs.Violation(sig, what+": GetParameters after SetParameters panics: "+pn.Msg, ev)
+		} else if !sameBits(pe, pv) {
+			cs.Violation(sig, fmt.Sprintf("%s: GetParameters() = %v after SetParameters(%v)", what, pe, pv), ev)
+		}
+		for j, x := range xs {
+			if v := evalLP(e, ty.t, x); v != vals[j] {
+				cs.Violation(sig, fmt.Sprintf("%s: LogPdf(%v) = %s, the object that holds these parameters gives %s", what, x, v, vals[j]), ev)
+				break
+			}
+		}
+		cs.Cover("roundtrip:set")
+	}
+	var same, other st.ScalarPdf
+	var err error
+	if pn := fw.Call(func() { same, err = mk(ty.t) }); pn == nil && err == nil && same != nil {
+		check("SetParameters(GetParameters()) on an identical object", same)
+	}
+	if pn := fw.Call(func() { other, err = mkOther(ty.t) }); pn == nil && err == nil && other != nil {
+		check("SetParameters(GetParameters()) into an object of the same structure with other parameters", other)
+	}
+}
+
+// countingVector wraps a parameter vector and counts the nested Slice calls: a
+// SetParameters that calls itself without end panics (recoverably) instead of
+// overflowing the stack of the worker.
+type countingVector struct {
+	ad.Vector
+	n *int
+}
+
+func (v countingVector) Slice(i, j int) ad.Vector {
+	*v.n++
+	if *v.n > 10000 {
+		panic("more than 10000 Slice calls on the parameter vector: SetParameters does not terminate")
+	}
+	return countingVector{v.Vector.Slice(i, j), v.n}
+}
+
+func guard(v ad.Vector) ad.Vector { return countingVector{v, new(int)} }
 
 func runWrappers(c *fw.Ctx) {
 	/* log transform: X = exp(Y) - c, Y ~ base */
@@ -176,13 +244,17 @@ func runWrappers(c *fw.Ctx) {
 		xs = append(xs, 0, minNormal, r.LogUniform(1e-12, 1e-3), -r.LogUniform(1e-6, 1e3), -pc, -pc/2, -pc-r.Float64())
 		ev := map[string]any{"k": "wrap", "kind": "logtransform", "pclass": pcl, "c": hx(pc), "base": baseDesc(name, p)}
 		sig := fmt.Sprintf("C14|logtransform(%s)|%s", name, pcl)
-		wrapEval(cs, ev, sig, xs, func(t ad.ScalarType) (st.ScalarPdf, error) {
-			b, err := f.build(t, p)
-			if err != nil {
-				return nil, err
+		p2 := otherParams(r, f, p)
+		mkLT := func(q []float64) func(t ad.ScalarType) (st.ScalarPdf, error) {
+			return func(t ad.ScalarType) (st.ScalarPdf, error) {
+				b, err := f.build(t, q)
+				if err != nil {
+					return nil, err
+				}
+				return nilIfErr(sd.NewPdfLogTransform(b, pc))
 			}
-			return nilIfErr(sd.NewPdfLogTransform(b, pc))
-		}, func() []node {
+		}
+		wrapEval(cs, ev, sig, xs, mkLT(p), func() []node {
 			if name != "normal" {
 				return nil
 			}
@@ -194,7 +266,7 @@ func runWrappers(c *fw.Ctx) {
 			last := br[len(br)-1]
 			// X = exp(Y) - c lives on (-c, inf)
 			return nodesFromBreaks(-pc, inf, br, 0, math.Max(last, 1))
-		})
+		}, mkLT(p2))
 		cs.Cover("wrap:logtransform/" + pcl)
 		cs.Nontrivial("logtransform", name, fmtParams(p), pc, fmt.Sprint(xs))
 		if cs.Index < 2 {
@@ -215,16 +287,20 @@ func runWrappers(c *fw.Ctx) {
 		}
 		ev := map[string]any{"k": "wrap", "kind": "translation", "pclass": "typical", "c": hx(tc), "base": baseDesc(name, p)}
 		sig := fmt.Sprintf("C14|translation(%s)|typical", name)
-		wrapEval(cs, ev, sig, xs, func(t ad.ScalarType) (st.ScalarPdf, error) {
-			b, err := f.build(t, p)
-			if err != nil {
-				return nil, err
+		p2 := baseGen(r, name)
+		mkTr := func(q []float64) func(t ad.ScalarType) (st.ScalarPdf, error) {
+			return func(t ad.ScalarType) (st.ScalarPdf, error) {
+				b, err := f.build(t, q)
+				if err != nil {
+					return nil, err
+				}
+				return nilIfErr(sd.NewPdfTranslation(b, tc))
 			}
-			return nilIfErr(sd.NewPdfTranslation(b, tc))
-		}, func() []node {
+		}
+		wrapEval(cs, ev, sig, xs, mkTr(p), func() []node {
 			lo, hi, br, s := baseBreaks(f, p, -tc)
 			return nodesFromBreaks(lo, hi, br, s, s)
-		})
+		}, mkTr(p2))
 		cs.Cover("wrap:translation")
 		cs.Nontrivial("translation", name, fmtParams(p), tc, fmt.Sprint(xs))
 		if cs.Index < 2 {
@@ -274,24 +350,34 @@ func runWrappers(c *fw.Ctx) {
 		}
 		ev := map[string]any{"k": "wrap", "kind": "mixture", "pclass": pcl, "weights": hxs(w), "bases": bases}
 		sig := fmt.Sprintf("C14|mixture|%s", pcl)
-		wrapEval(cs, ev, sig, xs, func(t ad.ScalarType) (st.ScalarPdf, error) {
-			ed := make([]st.ScalarPdf, k)
-			for i := range ed {
-				b, err := famByName(names[i]).build(t, ps[i])
-				if err != nil {
-					return nil, err
+		// the same structure with other weights and other component parameters
+		ps2 := make([][]float64, k)
+		w2 := make([]float64, k)
+		for i := range ps2 {
+			ps2[i] = baseGen(r, names[i])
+			w2[i] = r.LogUniform(0.05, 5)
+		}
+		mkMix := func(w []float64, ps [][]float64) func(t ad.ScalarType) (st.ScalarPdf, error) {
+			return func(t ad.ScalarType) (st.ScalarPdf, error) {
+				ed := make([]st.ScalarPdf, k)
+				for i := range ed {
+					b, err := famByName(names[i]).build(t, ps[i])
+					if err != nil {
+						return nil, err
+					}
+					ed[i] = b
 				}
-				ed[i] = b
+				return nilIfErr(sd.NewMixture(vec(t, w), ed))
 			}
-			return nilIfErr(sd.NewMixture(vec(t, w), ed))
-		}, func() []node {
+		}
+		wrapEval(cs, ev, sig, xs, mkMix(w, ps), func() []node {
 			// heavy tails of different scale: take the widest
 			for i := 0; i < k; i++ {
 				_, s := famByName(names[i]).center(ps[i])
 				sl, sr = math.Max(sl, s), math.Max(sr, s)
 			}
 			return nodesFromBreaks(lo, hi, br, sl, sr)
-		})
+		}, mkMix(w2, ps2))
 		cs.Cover("wrap:mixture/" + fmt.Sprintf("K=%d", k))
 		cs.Nontrivial("mixture", fmt.Sprint(names), fmt.Sprint(ps), fmt.Sprint(w), fmt.Sprint(xs))
 		if cs.Index < 2 {
@@ -336,6 +422,15 @@ func runWrappers(c *fw.Ctx) {
 				}
 			}
 			X = append(X, x)
+		}
+		// other parameters for the same structure (drawn last: the case above stays what it was)
+		ps2 := make([][]float64, n)
+		for i := 0; i < n; i++ {
+			if iid && i > 0 {
+				ps2[i] = ps2[0]
+			} else {
+				ps2[i] = baseGen(r, names[i])
+			}
 		}
 		kind := "id"
 		if iid {
@@ -384,18 +479,31 @@ func runWrappers(c *fw.Ctx) {
 					}
 				}
 			}
-			// parameter round trip
-			var serr error
-			if pn := fw.Call(func() { serr = cl.SetParameters(d.GetParameters().CloneVector()) }); pn != nil || serr != nil {
-				cs.Violation(sig+"|set|roundtrip", fmt.Sprintf("SetParameters(GetParameters()) fails: %v %v", serr, pn), ev)
-			} else {
-				for j, x := range X {
-					if v := evalVecLP(cl, ty.t, x); v != vals[j] {
-						cs.Violation(sig+"|set|roundtrip", fmt.Sprintf("LogPdf(%v) = %s after SetParameters(GetParameters()), before %s", x, v, vals[j]), ev)
-						break
+			// parameter round trips: identity, and from an object with other parameters
+			mkP := func(pp [][]float64) func() (pobj, error) {
+				return func() (pobj, error) {
+					ed := make([]st.ScalarPdf, n)
+					for i := range ed {
+						b, err := famByName(names[i]).build(ty.t, pp[i])
+						if err != nil {
+							return pobj{}, err
+						}
+						ed[i] = b
 					}
+					var o st.VectorPdf
+					var err error
+					if iid {
+						o, err = vd.NewScalarIid(ed[0], declared)
+					} else {
+						o, err = vd.NewScalarId(ed...)
+					}
+					if err != nil {
+						return pobj{}, err
+					}
+					return vobj(o, ty.t, X), nil
 				}
 			}
+			genericSetRoundTrip(cs, ev, sig, vobj(d, ty.t, X), vals, mkP(ps), mkP(ps2))
 		}
 		cs.C.Cover("lp-evaluations", int64(2*len(X)))
 		cs.C.Data(ev)
@@ -433,4 +541,59 @@ func nilIfErrAny[T any](d T, err error) (any, error) {
 		return nil, err
 	}
 	return d, nil
+}
+
+// pobj is a distribution object seen through its parameter vector and its
+// log-density at the evaluation arguments of a case.
+type pobj struct {
+	get func() ad.Vector
+	set func(ad.Vector) error
+	lp  func(i int) string
+	n   int
+}
+
+func vobj(d st.VectorPdf, t ad.ScalarType, X [][]float64) pobj {
+	return pobj{d.GetParameters, d.SetParameters, func(i int) string { return evalVecLP(d, t, X[i]) }, len(X)}
+}
+
+// genericSetRoundTrip: SetParameters(GetParameters()) is the identity on an
+// identical object, and turns an object of the same structure with other
+// parameters into the source object (parameters and LogPdf bit by bit).
+func genericSetRoundTrip(cs *fw.Case, ev map[string]any, sigHead string, d pobj, vals []string, mkSame, mkOther func() (pobj, error)) {
+	sig := sigHead + "|set|roundtrip"
+	var pv []float64
+	if pn := fw.Call(func() { pv = floats(d.get()) }); pn != nil {
+		cs.Violation(sig, "GetParameters panics: "+pn.Msg, ev)
+		return
+	}
+	check := func(what string, mk func() (pobj, error)) {
+		var e pobj
+		var err error
+		if pn := fw.Call(func() { e, err = mk() }); pn != nil || err != nil {
+			return // constructor problems are reported elsewhere
+		}
+		var serr error
+		if pn := fw.Call(func() { serr = e.set(guard(d.get().CloneVector())) }); pn != nil {
+			cs.Violation(sig, fmt.Sprintf("%s: SetParameters panics: %s", what, pn.Msg), ev)
+			return
+		} else if serr != nil {
+			cs.Violation(sig, fmt.Sprintf("%s: SetParameters returns error: %v", what, serr), ev)
+			return
+		}
+		var pe []float64
+		if pn := fw.Call(func() { pe = floats(e.get()) }); pn != nil {
+			cs.Violation(sig, what+": GetParameters after SetParameters panics: "+pn.Msg, ev)
+		} else if !sameBits(pe, pv) {
+			cs.Violation(sig, fmt.Sprintf("%s: GetParameters() = %v after SetParameters(%v)", what, pe, pv), ev)
+		}
+		for j := 0; j < e.n; j++ {
+			if v := e.lp(j); v != vals[j] {
+				cs.Violation(sig, fmt.Sprintf("%s: LogPdf at argument %d = %s, the object that holds these parameters gives %s", what, j, v, vals[j]), ev)
+				break
+			}
+		}
+		cs.Cover("roundtrip:set")
+	}
+	check("SetParameters(GetParameters()) on an identical object", mkSame)
+	check("SetParameters(GetParameters()) into an object of the same structure with other parameters", mkOther)
 }
